@@ -13,7 +13,8 @@
                       table_names_in_sheet, get_table_meta, table_by_name / table_by_name_ref
                       (get_dimension / get_row_column: Col26.v, the hardened scanner;
                       Range::range from Range.v)
-     src/xls.rs       parse_merge_cells (with the length checks of c8fd2d5), the MergeCells / EOF arms of the sheet-substream loop of
+     src/xls.rs       parse_merge_cells (with the length checks of c8fd2d5), the substream-depth
+                      match and the MergeCells / EOF arms of the sheet-substream loop of
                       parse_workbook, the BTreeMap of sheets, worksheet_merge_cells(_at)
 
    Input level.  XML parts enter as the list of quick-xml events that calamine's loops see
@@ -583,21 +584,30 @@ Definition parse_merge_cells_fast (r : list N) : outcome (list dims) :=
 Definition xrec := (N * list N)%type.                     (* record type, record data *)
 Definition REC_MERGECELLS : N := 229.   (* 0x00E5 *)
 Definition REC_EOF : N := 10.           (* 0x000A *)
+Definition REC_BOF : N := 2057.         (* 0x0809 *)
 
 (* the sheet-substream loop of parse_workbook, restricted to what touches merge_cells.  Cell
    records are the business of C02; they never touch merge_cells.  The loops are written over
    the record parser [pmc] so that the executable correspondence can run them with the
-   linear-time [parse_merge_cells_fast] (equal by Merge_proofs.xls_sheets_fast_eq). *)
+   linear-time [parse_merge_cells_fast] (equal by Merge_proofs.xls_sheets_fast_eq).
+   [depth] = the substreams open at this record (repo commit "fix: records of a chart substream
+   nested in an xls worksheet ..."): the record list starts with the sheet's own BOF (0 -> 1); a
+   BOF inside opens a nested substream (the chart of an embedded chart object), in which an EOF
+   only closes it and every other record - a MERGECELLS record too - is skipped. *)
 Section XlsWith.
 Variable pmc : list N -> outcome (list dims).
-Fixpoint xls_sheet_merges_with (recs : list xrec) (acc : list dims) : outcome (list dims) :=
+Fixpoint xls_sheet_merges_with (recs : list xrec) (acc : list dims) (depth : N)
+  : outcome (list dims) :=
   match recs with
   | [] => Ok acc
   | (typ, data) :: t =>
-      if typ =? REC_MERGECELLS then
-        do ds <- pmc data; xls_sheet_merges_with t (acc ++ ds)
+      if typ =? REC_BOF then xls_sheet_merges_with t acc (depth + 1)
+      else if 1 <? depth then
+        xls_sheet_merges_with t acc (if typ =? REC_EOF then depth - 1 else depth)
+      else if typ =? REC_MERGECELLS then
+        do ds <- pmc data; xls_sheet_merges_with t (acc ++ ds) depth
       else if typ =? REC_EOF then Ok acc
-      else xls_sheet_merges_with t acc
+      else xls_sheet_merges_with t acc depth
   end.
 
 (* for (pos, name) in sheet_names { …; sheets.insert(name, SheetData{..}) } *)
@@ -605,7 +615,7 @@ Fixpoint xls_sheets_with (subs : list (str * list xrec)) : outcome (list (str * 
   match subs with
   | [] => Ok []
   | (name, recs) :: t =>
-      do ds <- xls_sheet_merges_with recs [];
+      do ds <- xls_sheet_merges_with recs [] 0;
       do rest <- xls_sheets_with t;
       Ok ((name, ds) :: rest)
   end.
@@ -1060,26 +1070,60 @@ Definition enc_ref8 (d : dims) : list N :=          (* Ref8: rwFirst, rwLast, co
 Definition enc_mergecells (ds : list dims) : xrec :=
   (REC_MERGECELLS, le16 (N.of_nat (length ds)) ++ flat_map enc_ref8 ds).
 
-(* a sheet substream: groups of (other records, one MergeCells record), then more records, the
-   EOF record, and whatever follows it in the stream (the next substream) *)
+(* what stands between the MergeCells records of a sheet substream: a record of the sheet itself
+   (cells, ROW, WINDOW2, MsoDrawing, OBJ ...: any type but the three with a structural meaning
+   here - MERGECELLS, and BOF / EOF which delimit substreams), or a substream NESTED in the sheet
+   ([MS-XLS] 2.1.7.20.5: OBJECTS = *(MsoDrawing *(TEXTOBJECT / OBJ / CHART)), CHART = BOF
+   CHARTSHEETCONTENT ... EOF; Excel writes one per embedded chart, and OBJECTS comes BEFORE
+   *MergeCells in WORKSHEETCONTENT): BOF, ANY records - MERGECELLS records, further BOF ... EOF
+   pairs included -, EOF.  Nothing inside declares a region of the sheet. *)
+Inductive xother : Type :=
+| XRec (r : xrec)
+| XSub (bof : list N) (recs : list xrec).
+
+Definition enc_xother (o : xother) : list xrec :=
+  match o with
+  | XRec r => [r]
+  | XSub bof recs => (REC_BOF, bof) :: recs ++ [(REC_EOF, [])]
+  end.
+
+(* a sheet substream: its BOF record, groups of (other material, one MergeCells record), then
+   more material, the EOF record, and whatever follows it in the stream (the next substream) *)
 Record xls_sheet_e : Type := mkXlsSheet {
   xs_name : str;
-  xs_groups : list (list xrec * list dims);
-  xs_tail : list xrec;
+  xs_bof : list N;                         (* body of the sheet's BOF record (not read) *)
+  xs_groups : list (list xother * list dims);
+  xs_tail : list xother;
   xs_after_eof : list xrec }.
 
 Definition xs_regions (s : xls_sheet_e) : list dims := concat (map snd (xs_groups s)).
 Definition enc_xls_sheet (s : xls_sheet_e) : list xrec :=
-  flat_map (fun g => fst g ++ [enc_mergecells (snd g)]) (xs_groups s) ++
-  xs_tail s ++ [(REC_EOF, [])] ++ xs_after_eof s.
+  (REC_BOF, xs_bof s) ::
+  flat_map (fun g => flat_map enc_xother (fst g) ++ [enc_mergecells (snd g)]) (xs_groups s) ++
+  flat_map enc_xother (xs_tail s) ++ [(REC_EOF, [])] ++ xs_after_eof s.
 
 Definition quiet_rec (r : xrec) : bool :=
-  negb (fst r =? REC_MERGECELLS) && negb (fst r =? REC_EOF).
+  negb (fst r =? REC_MERGECELLS) && negb (fst r =? REC_EOF) && negb (fst r =? REC_BOF).
+(* BOF and EOF balance inside a nested substream: [d] further substreams are open before the
+   first record, none at the end, no EOF closes more than were opened *)
+Fixpoint xbalanced (d : nat) (recs : list xrec) : bool :=
+  match recs with
+  | [] => match d with O => true | S _ => false end
+  | r :: rest =>
+      if fst r =? REC_BOF then xbalanced (S d) rest
+      else if fst r =? REC_EOF then match d with O => false | S d' => xbalanced d' rest end
+      else xbalanced d rest
+  end.
+Definition xother_legal (o : xother) : bool :=
+  match o with
+  | XRec r => quiet_rec r
+  | XSub _ recs => xbalanced 0 recs
+  end.
 Definition MAX_MERGE_PER_RECORD : nat := 1026.      (* MS-XLS 2.4.168: cmcs <= 1026 *)
 Definition xls_sheet_legal (s : xls_sheet_e) : bool :=
-  forallb (fun g => forallb quiet_rec (fst g) && Nat.leb (length (snd g)) MAX_MERGE_PER_RECORD)
+  forallb (fun g => forallb xother_legal (fst g) && Nat.leb (length (snd g)) MAX_MERGE_PER_RECORD)
           (xs_groups s) &&
-  forallb quiet_rec (xs_tail s).
+  forallb xother_legal (xs_tail s).
 Definition xls_sheet_dom (s : xls_sheet_e) : Prop :=
   Forall (dims_ok XLS_ROWS XLS_COLS) (xs_regions s).
 Definition xls_sheet_domb (s : xls_sheet_e) : bool :=
